@@ -182,10 +182,10 @@ type env struct {
 	srcCloseGate   chan struct{}
 	start          time.Time
 	srcCloseDoneAt time.Duration
-	items     []int // values handed out by the source
-	srcFailed error
-	srcEnded  bool
-	srcPos    int
+	items          []int // values handed out by the source
+	srcFailed      error
+	srcEnded       bool
+	srcPos         int
 	// f
 	calls    []*fcall
 	gauge    int
